@@ -1097,3 +1097,9 @@ def bounded_from_source_lines(tier, seed):
 
 BOUNDED.append(bounded_from_source_lines)
 SHARDS["sqlfluff.core.rules.noqa:IgnoreMask._ignore_masked_violations_line_range"] = 12
+
+
+# ------------------------------------------------------------------ textual front end and mask construction (contracts/c20_front.py)
+from . import c20_front as _front  # noqa: E402
+
+MUTANTS = MUTANTS + _front.MUTANTS
